@@ -121,6 +121,7 @@ package pod_info
 //@   ensures result.Status == pi.Status && result.Pod == pi.Pod && result.NodeName == pi.NodeName
 //@   ensures result.ResourceRequestType == pi.ResourceRequestType && result.ResourceReceivedType == pi.ResourceReceivedType && result.IsVirtualStatus == pi.IsVirtualStatus && result.IsLegacyMIGtask == pi.IsLegacyMIGtask
 //@   ensures len(result.GPUGroups) == len(pi.GPUGroups) && (forall i int :: 0 <= i && i < len(pi.GPUGroups) ==> result.GPUGroups[i] == pi.GPUGroups[i])
+//@   ensures [stmt2-groupsShared] result.GPUGroups == pi.GPUGroups   // added by helper "stmt2": the clone shares the GPU-group slice (same array, offset, length)
 //@   ensures result.ResReq != nil && result.AcceptedResource != nil && result.ResReq != pi.ResReq && result.AcceptedResource != pi.AcceptedResource
 //@   ensures result.VectorMap == pi.VectorMap
 //@   ensures [resreq-copied] result.ResReq.milliCpu == pi.ResReq.milliCpu && result.ResReq.memory == pi.ResReq.memory && result.ResReq.count == pi.ResReq.count && result.ResReq.portion == pi.ResReq.portion && result.ResReq.gpuMemory == pi.ResReq.gpuMemory
